@@ -187,6 +187,8 @@ pub struct Node {
     pub reloaded_lower_commit: bool,
     /// ghost (as leader): peers in Probe state to which an entry-carrying append is unanswered
     pub probe_outstanding: std::collections::BTreeSet<NodeId>,
+    /// ghost (as leader): snapshots handed to the transport about which the transport has not reported yet
+    pub snap_handed: BTreeMap<NodeId, u64>,
     pub ticks_as_leader_with_transferee: usize,
     pub transferee_seen: Option<u64>,
     /// ghost: in-flight window capacity last requested per peer (C18: a resize must not get lost)
@@ -418,6 +420,7 @@ impl World {
                     max_commit_ever: 0,
                     reloaded_lower_commit: false,
                     probe_outstanding: Default::default(),
+                    snap_handed: Default::default(),
                     ticks_as_leader_with_transferee: 0,
                     transferee_seen: None,
                     want_cap: BTreeMap::new(),
@@ -635,6 +638,12 @@ impl World {
                         }
                     }
                 }
+                if self.focus == Some("C13") && msg.contains("cannot add into a full inflights") {
+                    // the leader tried to put one more entry-carrying append in flight than the window allows; the
+                    // window structure refused (by panicking), the flow-control rule was broken by the caller
+                    let d = format!("leader {n} tried to send entries into a full in-flight window in {}: {msg}", kind_name(&kind));
+                    return Err(self.violation("C13", "C13.window", n, d, "send_into_full_window:panicked".into()));
+                }
                 if self.focus == Some("C18") {
                     // a window operation that panics is not "exactly like a bounded FIFO": panics raised inside
                     // the Inflights code, or by a capacity change / buffer release call, belong to C18
@@ -780,6 +789,7 @@ impl World {
         node.notify_queue.clear();
         node.snap_outstanding.clear();
         node.probe_outstanding.clear();
+        node.snap_handed.clear();
         if node.obs.commit < node.max_commit_ever {
             node.reloaded_lower_commit = true;
         }
@@ -1427,6 +1437,24 @@ impl World {
                 })?;
             }
             Action::Compact { n, back } => self.compact(*n, *back)?,
+            Action::StorageExercise { n, seed } => {
+                if let Some(node) = self.nodes.get(n) {
+                    if node.started {
+                        let model = node.disk.model.clone();
+                        let r = std::panic::catch_unwind(std::panic::AssertUnwindSafe(|| crate::disk::exercise(&model, *seed)))
+                            .unwrap_or_else(|_| Err(format!("a mutation panicked: {}", take_last_panic().unwrap_or_default())));
+                        self.bump("storage_what_if_sequences");
+                        match r {
+                            Ok(k) => *self.stats.entry("chk.C19.differential").or_insert(0) += k,
+                            Err(e) => {
+                                let d = format!("what-if mutation sequence on a copy of node {n}'s storage (seed {seed}): {e}");
+                                let v = self.violation("C19", "C19.differential", *n, d, "memstorage_sequence".into());
+                                self.gate(Err(v))?;
+                            }
+                        }
+                    }
+                }
+            }
             Action::SetKnob { n, knob } => {
                 let k = *knob;
                 let universe: Vec<NodeId> = self.cfg.nodes.keys().cloned().collect();
@@ -1523,6 +1551,7 @@ impl World {
             Action::ReportUnreachable { n, .. } => (18, *n),
             Action::ReportSnapshot { n, .. } => (19, *n),
             Action::Compact { n, .. } => (20, *n),
+            Action::StorageExercise { n, .. } => (34, *n),
             Action::SetKnob { n, .. } => (21, *n),
             Action::StorageFault { n, .. } => (22, *n),
             Action::EntriesFetched { n } => (23, *n),
